@@ -486,8 +486,11 @@ fn mut_kind(m: &Mut) -> &'static str {
 pub struct NestedCase {
     /// which nested tag carries the payload: 0=CERT 1=DELE 2=SREP
     pub which: u8,
-    /// 0 = valid nested message, 1 = random aligned bytes, 2 = truncated nested message, 3 = nested three deep
+    /// 0 = valid nested message, 1 = random aligned bytes, 2 = truncated nested message, 3 = nested three deep,
+    /// 4 = a chain of valid nested messages `depth` levels deep (CERT{DELE{SREP{CERT{...}}}})
     pub shape: u8,
+    #[serde(default)]
+    pub depth: u16,
     pub inner: ApiMsg,
     pub junk: Hex,
     pub cut: u16,
@@ -495,9 +498,10 @@ pub struct NestedCase {
 }
 
 fn nested_case() -> impl Strategy<Value = NestedCase> {
-    (0u8..3, 0u8..4, api_msg(16), bytes(aligned_len(32)), any::<u16>(), api_msg(8)).prop_map(|(which, shape, inner, junk, cut, others)| NestedCase {
+    (0u8..3, 0u8..5, api_msg(16), bytes(aligned_len(32)), any::<u16>(), api_msg(8), prop_oneof![4 => 1u16..=12, 2 => 1u16..=64, 1 => 64u16..=600]).prop_map(|(which, shape, inner, junk, cut, others, depth)| NestedCase {
         which,
         shape,
+        depth,
         inner,
         junk,
         cut,
@@ -508,7 +512,16 @@ fn nested_case() -> impl Strategy<Value = NestedCase> {
 fn nested_bytes(c: &NestedCase) -> Vec<u8> {
     let nested_tag = [rc::CERT, rc::DELE, rc::SREP][c.which as usize % 3];
     let inner_enc = c.inner.to_ref().encode();
-    let payload: Vec<u8> = match c.shape % 4 {
+    let payload: Vec<u8> = match c.shape % 5 {
+        4 => {
+            // innermost: the generated inner message; then `depth` wrappers cycling through the nested tags
+            let mut cur = c.inner.to_ref().encode();
+            for d in 0..c.depth.min(600) {
+                let t = [rc::SREP, rc::DELE, rc::CERT][d as usize % 3];
+                cur = Msg::new().with(t, &cur).encode();
+            }
+            cur
+        }
         0 => inner_enc,
         1 => c.junk.0.clone(),
         2 => {
@@ -621,7 +634,7 @@ pub fn run(mode: Mode, ctx: &mut Ctx) -> Vec<Violation> {
         out.extend(run_prop(ctx, "nested-display", t.pick(80_000, 800_000), 2000, nested_case(), |ctx, c| {
             let x = nested_bytes(c);
             ctx.sample("nested", 3, c);
-            check(mode, ctx, &x, &format!("nested-shape{}", c.shape % 4))
+            check(mode, ctx, &x, &format!("nested-shape{}{}", c.shape % 5, if c.shape % 5 == 4 { format!(":depth{}", if c.depth < 8 { "<8" } else if c.depth < 64 { "8-63" } else { ">=64" }) } else { String::new() }))
         }));
     }
     out
